@@ -143,6 +143,14 @@ def unconstrained(data: bytes) -> bool:
     return _judge(_get_class(), prefix + data)
 
 
+def sample_args(rng, kwargs):
+    out = {}
+    for name in kwargs:
+        if name.startswith('val'):
+            out[name] = rng.randrange(256)
+    return out
+
+
 # ------------------------------------------------------------------------------------------------------------------
 
 def _positions(seed, tier, rng, per_seed):
